@@ -510,7 +510,9 @@ def _tap_check_step(kind, agent, t, pre, post, act, prev_act, prev_ok, rkc, rks,
     if not idle:
         cover("acted")
         repeat = all_of(not prev_ok, act[0] == prev_act[0], act[1] == prev_act[1])
-        if not repeat:
+        if not repeat or a not in spec["actions"]:
+            # (a refused action may be retried, but only while its stage is still being attempted: once the chain has
+            # failed and gone back to NOT_STARTED, or has ended, re-issuing the old action is acting outside the chain)
             check(a in spec["actions"] and act[0] in spec["actions"][a], lambda: f"action {act[0]} emitted while attempting stage {a}")
         else:
             cover("retried")
